@@ -22,6 +22,7 @@ fn lerp_all<S: Sc>(d: &mut Draw) -> Outcome {
             ensure_eq!(a.lerp(b, t), a + (b - a) * t, concat!("lerp-", $name), concat!($name, "::lerp(a,b,t) vs a + (b-a)t"));
             ensure_eq!(a.lerp(b, z), a, concat!("lerp0-", $name), concat!($name, "::lerp(a,b,0) = a"));
             ensure_eq!(a.lerp(b, o), b, concat!("lerp1-", $name), concat!($name, "::lerp(a,b,1) = b"));
+            ensure_eq!(a.lerp(a, t), a, concat!("lerp-same-", $name), concat!($name, "::lerp(a,a,t) = a"));
         }};
     }
     one!(gv1::<S>(d), "Vector1");
@@ -58,7 +59,23 @@ fn pair(d: &mut Draw) -> ([f64; 4], [f64; 4], &'static str) {
     let p = fnormalize4(&comb4(&g, 1.0, &a, -dot4(&g, &a)));
     let flip = if d.bool() { 1.0 } else { -1.0 };
     let mk = |om: f64| fnormalize4(&comb4(&a, om.cos() * flip, &p, om.sin() * flip));
-    match d.int(0, 12) {
+    match d.int(0, 13) {
+        13 => {
+            // a.b is +-0.9995 *exactly* (a on a coordinate axis, b = c a + s e_j): the statement's "a.b <= 0.9995" side
+            // of the hand-over, with no rounding in the dot product to hide behind
+            let (i, mut j) = (d.below(4), d.below(4));
+            if i == j {
+                j = (i + 1) % 4;
+            }
+            let sa = if d.bool() { 1.0 } else { -1.0 };
+            let c = if d.bool() { 0.9995 } else { -0.9995 };
+            let sn = (1.0f64 - 0.9995 * 0.9995).sqrt() * if d.bool() { 1.0 } else { -1.0 };
+            let (mut x, mut y) = ([0.0f64; 4], [0.0f64; 4]);
+            x[i] = sa;
+            y[i] = c * sa;
+            y[j] = sn;
+            (x, y, "hand-over-exactly-at-threshold")
+        }
         12 => {
             // exactly orthogonal by structure: disjoint supports, zeros of either sign (basis quaternions included);
             // every product a_i b_i is a zero, so a.b = 0 in any evaluation order and "a.b >= 0" holds exactly
@@ -137,7 +154,9 @@ fn check_against(r: &[f64; 4], a: &[f64; 4], bp: &[f64; 4], t: f64, slerp: bool,
     }
     if slerp {
         let close = raw_dot.abs() > 0.9995;
-        let band = (raw_dot.abs() - 0.9995).abs() <= 1e-9;
+        // the dot product is known exactly when at most one product a_i b_i is non-zero
+        let exact_dot = (0..4).filter(|&i| a[i] * bp[i] != 0.0).count() <= 1;
+        let band = (raw_dot.abs() - 0.9995).abs() <= 1e-9 && !exact_dot;
         let tol = if close || band { 1e-5 } else { 1e-9 };
         let e1 = (phi - t * omega).abs();
         if e1 > tol {
@@ -203,6 +222,7 @@ fn interp_f64(d: &mut Draw) -> Outcome {
         ("generic", false, false) => "generic+",
         ("generic", true, false) => "generic-",
         ("generic", _, true) => "generic-endpoint",
+        ("hand-over-exactly-at-threshold", _, true) => "hand-over",
         ("hand-over", false, _) => "hand-over+",
         ("hand-over", true, _) => "hand-over-",
         (c, _, _) => c,
@@ -220,7 +240,7 @@ pub fn property() -> Property {
     add!("lerp-Q", "Q", lerp_all::<Q>, 3000, 200_000, 360, &[("interior-or-extrapolating", 500)], "t not in {0,1}");
     add!("lerp-Fp", "Fp", lerp_all::<Fp>, 3000, 200_000, 360, &[("interior-or-extrapolating", 500)], "t not in {0,1}");
     add!("nlerp_slerp-f64", "f64", interp_f64, 20000, 1_000_000, 80,
-        &[("generic+", 50), ("generic-", 50), ("generic-endpoint", 30), ("nearly-parallel", 30), ("nearly-opposite", 30), ("hand-over+", 50), ("hand-over-", 50), ("orthogonal", 30), ("orthogonal-disjoint-support", 30), ("equal", 15), ("exactly-opposite", 15)],
+        &[("generic+", 50), ("generic-", 50), ("generic-endpoint", 30), ("nearly-parallel", 30), ("nearly-opposite", 30), ("hand-over+", 50), ("hand-over-", 50), ("orthogonal", 30), ("orthogonal-disjoint-support", 30), ("hand-over-exactly-at-threshold", 20), ("equal", 15), ("exactly-opposite", 15)],
         "every generated pair; all pair classes, both signs of a.b and both endpoints required");
     Property {
         id: "C14",
